@@ -3,7 +3,7 @@
    clauses the correspondence check evaluates on the implementation hold of the model for all histories. *)
 From Coq Require Import List Bool NArith ZArith Lia Permutation.
 From AUC Require Import Prelude.PyStr Prelude.PyDict C16.Model C16.Spec C16.Proofs C16.Equivb
-  C03.Model C03.Spec C03.Inv C03.Bridge C03.StepChar C03.Run C04.Spec C04.Proofs C04.Run Gen.Ssdp.
+  C03.Model C03.Spec C03.Inv C03.Bridge C03.StepChar C03.Run C03.Clauses C04.Spec C04.Proofs C04.Run Gen.Ssdp.
 Import ListNotations.
 
 Local Notation KS := str_eqb_spec.
@@ -941,4 +941,12 @@ Theorem notify_exact : forall i, dom i = true -> C04.Run.spec_failures i (model_
 Proof.
   intros [[th tab] ops] Hd. unfold dom in Hd. destruct th; [|discriminate].
   unfold C04.Run.spec_failures, model_run. apply history_clauses; [exact Inv0 | exact MemRel0 | reflexivity | exact Hd].
+Qed.
+
+(* the same on the in-domain prefix of ANY history: what the correspondence check evaluates *)
+Theorem notify_exact_prefix : forall i, C04.Run.spec_failures_prefix i (model_run i) = [].
+Proof.
+  intros [[th tab] ops]. unfold C04.Run.spec_failures_prefix, model_run. destruct th; [|reflexivity]. cbv zeta.
+  rewrite run_from_prefix.
+  exact (notify_exact ([], tab, dom_prefix ops) (in_domain_prefix ops)).
 Qed.
